@@ -134,15 +134,17 @@ _md_inner = st.lists(treegen.arb_spec(6), min_size=0, max_size=3)
 
 @st.composite
 def with_metadata(draw, base):
+    from vf.pre import Pre
+    pre = Pre(draw, 8)      # control choices first (vf/pre.py)
     sp = treegen._copy(draw(base))
     targets = [s for _, s in treegen.spec_nodes(sp)]
-    host = targets[draw(st.integers(0, len(targets) - 1))]
+    host = pre.pick(targets)
     md = {"n": "metadata"}
     inner = draw(_md_inner)
     if inner:
         md["k"] = inner
     am = {"n": "additionalMetadata", "k": [md]}
-    if draw(st.booleans()):
+    if pre.bool():
         am["k"].insert(0, {"n": "describes", "c": "x"})
     host.setdefault("k", []).append(am)
     return sp
@@ -153,12 +155,14 @@ def with_twins(draw, base):
     """two nodes that agree in (almost) everything: identical twins that are invalid in the same way, or a valid node
     followed / preceded by a copy that differs in one attribute value, content, or something deeper"""
     from metapype.eml import rule as R
+    from vf.pre import Pre
+    pre = Pre(draw, 24)     # control choices first (vf/pre.py)
     sp = treegen._copy(draw(base))
     cands = [(p, s) for p, s in treegen.spec_nodes(sp) if p]
     if not cands:
         return sp
-    kind = draw(st.sampled_from(["identical", "identical-both-invalid", "identical-both-misordered", "attr-value", "attr-value",
-                                 "attr-value", "attr-value", "attr-value", "content", "deep-content", "child-dropped"]))
+    kind = pre.pick(["identical", "identical-both-invalid", "identical-both-misordered", "attr-value", "attr-value",
+                                 "attr-value", "attr-value", "attr-value", "content", "deep-content", "child-dropped"])
 
     def enums_of(s):
         rn = R.node_mappings.get(s["n"])
@@ -167,42 +171,42 @@ def with_twins(draw, base):
         with_enum = [(p, s) for p, s in cands if enums_of(s)]
         if with_enum:
             cands = with_enum
-    path, node = cands[draw(st.integers(0, len(cands) - 1))]
+    path, node = pre.pick(cands)
     parent = treegen.spec_at(sp, path[:-1])
     enums = enums_of(node)
     if kind == "attr-value" and enums:
-        a, vals = enums[draw(st.integers(0, len(enums) - 1))]
-        node.setdefault("a", {})[a] = vals[draw(st.integers(0, len(vals) - 1))]
+        a, vals = pre.pick(enums)
+        node.setdefault("a", {})[a] = pre.pick(vals)
     if kind == "identical-both-misordered" and node.get("k"):
         # the same child-order problem in two siblings: each must be reported
         ks = node["k"]
         if len(ks) >= 2 and ks[0]["n"] != ks[-1]["n"]:
             ks.reverse()
         else:
-            ks.append({"n": draw(st.sampled_from(["zzLeftover", ks[0]["n"]]))})
+            ks.append({"n": pre.pick(["zzLeftover", ks[0]["n"]])})
     twin = treegen._copy(node)
     if kind == "identical-both-invalid":
         node["c"] = twin["c"] = "zz unexpected"
         node.setdefault("a", {})["zzForeign"] = "1"
         twin.setdefault("a", {})["zzForeign"] = "1"
     elif kind == "attr-value" and enums:
-        twin["a"][a] = draw(st.sampled_from(["zzBad", "", vals[0].upper(), vals[0] + " "]))
+        twin["a"][a] = pre.pick(["zzBad", "", vals[0].upper(), vals[0] + " "])
     elif kind == "attr-value" and twin.get("a"):
-        k = sorted(twin["a"])[draw(st.integers(0, len(twin["a"]) - 1))]
+        k = pre.pick(sorted(twin["a"]))
         twin["a"][k] = twin["a"][k] + "~"
     elif kind == "content":
-        twin["c"] = draw(st.sampled_from(["", "zz", "-91", "x y"])) if twin.get("c") is None else None
+        twin["c"] = pre.pick(["", "zz", "-91", "x y"]) if twin.get("c") is None else None
         if twin["c"] is None:
             del twin["c"]
     elif kind == "deep-content":
         inner = [s for _, s in treegen.spec_nodes(twin)]
-        t = inner[draw(st.integers(0, len(inner) - 1))]
+        t = pre.pick(inner)
         t["c"] = "zz changed"
     elif kind == "child-dropped" and twin.get("k"):
-        del twin["k"][draw(st.integers(0, len(twin["k"]) - 1))]
+        del twin["k"][pre.int(0, len(twin["k"]) - 1)]
         if not twin["k"]:
             del twin["k"]
-    first_is_original = draw(st.integers(0, 3)) > 0
+    first_is_original = not pre.chance(4)
     i = path[-1]
     if first_is_original:
         parent["k"].insert(i + 1, twin)
